@@ -644,7 +644,7 @@ Definition step (s : state) (o : op) : state * answer :=
   | ORevert id => let (s1, p) := revert_to s id in (s1, if p then APanic else AUnit)
   | OFinalise de => (finalise de s, AUnit)
   | OIntermediateRoot de => (intermediate_root de s, AUnit)
-  | OCommit de => (fst (commit de s), AUnit)
+  | OCommit de => let (s1, _) := commit de s in (s1, AUnit)
   | ORead q => read s q
   end.
 
